@@ -422,4 +422,5 @@ def run(ctx):
     # the span-level hand-off buffer discipline is shared with C11
     from . import c11
     c11.rule_handoff(ctx, rep, rule='R-HANDOFF')
+    c11.rule_must_refresh(ctx, rep, rule='R-HANDOFF')
     rep.assume('block tokens follow the start/read protocol driven by block_tokenizer.tokenize_block')
